@@ -3,6 +3,7 @@ package rcproxy
 import (
 	"context"
 	"fmt"
+	"github.com/prometheus/prometheus/model/relabel"
 	"math"
 	"sort"
 	"strings"
@@ -24,6 +25,8 @@ type proxyConf struct {
 	Lazy    bool
 	LazyBuf int
 	Timeout time.Duration
+	// Selector: the querier's --selector.relabel-config (keep/drop rules over the stores' external label sets)
+	Selector []*relabel.Config
 }
 
 func (p proxyConf) String() string {
@@ -54,6 +57,9 @@ func newCluster(s *simkit.Sim, ds *dataset, pc proxyConf) *cluster {
 	var opts []store.ProxyStoreOption
 	if pc.Lazy && pc.LazyBuf > 0 {
 		opts = append(opts, store.WithLazyRetrievalMaxBufferedResponsesForProxy(pc.LazyBuf))
+	}
+	if pc.Selector != nil {
+		opts = append(opts, store.WithTSDBSelector(store.NewTSDBSelector(pc.Selector)))
 	}
 	c.proxy = store.NewProxyStore(log.NewNopLogger(), prometheus.NewRegistry(), func() []store.Client {
 		out := make([]store.Client, 0, len(c.clients))
